@@ -59,22 +59,21 @@ theorem relink_effect {p p1 : Pool} {o : ObjId} {n : Name} {d : DelegInfo} (evs 
         simp only []
         exact .relink o n d p1 h _ htd hm (hp1.imp id (·.1)) hdict hf hh
 
-theorem setPlain_effect (E : Env) (k : Nat) (p : Pool) (op : Op) (x : ObjId) (t : Name) (vid : Nat) (dflt v : Val)
+theorem setPlain_effect (E : Env) (k : Nat) (p : Pool) (op : Op) (x : ObjId) (t : Name) (vid : Nat) (dflt : Val)
+    (cmp : Cmp) (v : Val)
     (hnd : NonDefer ((p.obj x).cls.trait t)) :
-    Effect p op (setPlain E k p x t vid dflt v).pool (setPlain E k p x t vid dflt v).hookExc
-      (setPlain E k p x t vid dflt v).broken := by
+    Effect p op (setPlain E k p x t vid dflt cmp v).pool (setPlain E k p x t vid dflt cmp v).hookExc
+      (setPlain E k p x t vid dflt cmp v).broken := by
   unfold setPlain
   cases E.validate vid k v with
   | error e => exact .same ..
   | ok w => exact .dictTarget _ x t _ _ _ hnd
 
-theorem delPlain_effect (p : Pool) (op : Op) (x : ObjId) (t : Name) (dflt : Val)
+theorem delPlain_effect (E : Env) (p : Pool) (op : Op) (x : ObjId) (t : Name) (dflt : Val) (cmp : Cmp)
     (hnd : NonDefer ((p.obj x).cls.trait t)) :
-    Effect p op (delPlain p x t dflt).pool (delPlain p x t dflt).hookExc (delPlain p x t dflt).broken := by
+    Effect p op (delPlain E p x t dflt cmp).pool (delPlain E p x t dflt cmp).hookExc (delPlain E p x t dflt cmp).broken := by
   unfold delPlain
-  cases (p.obj x).dict t with
-  | none => exact .same ..
-  | some old => exact .dictTarget _ x t _ _ _ hnd
+  exact .dictTarget _ x t _ _ _ hnd
 
 theorem delPython_effect (p : Pool) (op : Op) (x : ObjId) (t : Name)
     (hnd : NonDefer ((p.obj x).cls.trait t)) :
@@ -101,10 +100,10 @@ theorem setDefer_effect (E : Env) (k : Nat) (p : Pool) (o : ObjId) (n : Name) (d
       simp only [if_true]
       cases htx : (p.obj x).cls.trait t with
       | defer d' => exact absurd htx (hnd d')
-      | plain vid dflt =>
+      | plain vid dflt cmp =>
         cases v with
-        | some v => exact setPlain_effect E k p _ x t vid dflt v hnd
-        | none => exact delPlain_effect p _ x t dflt hnd
+        | some v => exact setPlain_effect E k p _ x t vid dflt cmp v hnd
+        | none => exact delPlain_effect E p _ x t dflt cmp hnd
       | python =>
         cases v with
         | some v => exact .dictTarget _ x t _ _ _ hnd
@@ -113,7 +112,7 @@ theorem setDefer_effect (E : Env) (k : Nat) (p : Pool) (o : ObjId) (n : Name) (d
       simp only [Bool.false_eq_true, if_false]
       cases htx : (p.obj x).cls.trait t with
       | defer d' => exact absurd htx (hnd d')
-      | plain vid dflt =>
+      | plain vid dflt cmp =>
         cases v with
         | some v =>
           simp only []
@@ -153,13 +152,13 @@ theorem step_effect (E : Env) (k : Nat) (p : Pool) (op : Op) :
   | set o n v =>
     simp only [step]
     cases htd : (p.obj o).cls.trait n with
-    | plain vid dflt => exact setPlain_effect E k p _ o n vid dflt v (by rw [htd]; intro d; simp)
+    | plain vid dflt cmp => exact setPlain_effect E k p _ o n vid dflt cmp v (by rw [htd]; intro d; simp)
     | python => exact .dictTarget _ o n _ _ _ (by rw [htd]; intro d; simp)
     | defer d => exact setDefer_effect E k p o n d htd (some v)
   | del o n =>
     simp only [step]
     cases htd : (p.obj o).cls.trait n with
-    | plain vid dflt => exact delPlain_effect p _ o n dflt (by rw [htd]; intro d; simp)
+    | plain vid dflt cmp => exact delPlain_effect E p _ o n dflt cmp (by rw [htd]; intro d; simp)
     | python => exact delPython_effect p _ o n (by rw [htd]; intro d; simp)
     | defer d => exact setDefer_effect E k p o n d htd none
   | swap o t =>
@@ -190,13 +189,13 @@ theorem relink_flags (p : Pool) (o : ObjId) (n : Name) (d : DelegInfo) (evs : Li
       subst h2
       exact ⟨rfl, rfl⟩
 
-theorem setPlain_flags (E : Env) (k : Nat) (p : Pool) (x : ObjId) (t : Name) (vid : Nat) (dflt v : Val) :
-    (setPlain E k p x t vid dflt v).hookExc = 0 ∧ (setPlain E k p x t vid dflt v).broken = false := by
+theorem setPlain_flags (E : Env) (k : Nat) (p : Pool) (x : ObjId) (t : Name) (vid : Nat) (dflt : Val) (cmp : Cmp)
+    (v : Val) :
+    (setPlain E k p x t vid dflt cmp v).hookExc = 0 ∧ (setPlain E k p x t vid dflt cmp v).broken = false := by
   unfold setPlain; cases E.validate vid k v <;> exact ⟨rfl, rfl⟩
 
-theorem delPlain_flags (p : Pool) (x : ObjId) (t : Name) (dflt : Val) :
-    (delPlain p x t dflt).hookExc = 0 ∧ (delPlain p x t dflt).broken = false := by
-  unfold delPlain; cases (p.obj x).dict t <;> exact ⟨rfl, rfl⟩
+theorem delPlain_flags (E : Env) (p : Pool) (x : ObjId) (t : Name) (dflt : Val) (cmp : Cmp) :
+    (delPlain E p x t dflt cmp).hookExc = 0 ∧ (delPlain E p x t dflt cmp).broken = false := ⟨rfl, rfl⟩
 
 theorem delPython_flags (p : Pool) (x : ObjId) (t : Name) :
     (delPython p x t).hookExc = 0 ∧ (delPython p x t).broken = false := by
@@ -219,7 +218,7 @@ theorem setDefer_flags (E : Env) (k : Nat) (p : Pool) (o : ObjId) (n : Name) (d 
     | true =>
       simp only [if_true]
       cases td with
-      | plain vid dflt =>
+      | plain vid dflt cmp =>
         cases v with
         | some v => exact ⟨(setPlain_flags ..).1, fun h => by rw [(setPlain_flags ..).2] at h; cases h⟩
         | none => exact ⟨(delPlain_flags ..).1, fun h => by rw [(delPlain_flags ..).2] at h; cases h⟩
@@ -234,7 +233,7 @@ theorem setDefer_flags (E : Env) (k : Nat) (p : Pool) (o : ObjId) (n : Name) (d 
     | false =>
       simp only [Bool.false_eq_true, if_false]
       cases td with
-      | plain vid dflt =>
+      | plain vid dflt cmp =>
         cases v with
         | some v =>
           simp only []
@@ -282,7 +281,7 @@ theorem step_flags (E : Env) (k : Nat) (p : Pool) (op : Op) :
   | set o n v =>
     simp only [step]
     cases htd : (p.obj o).cls.trait n with
-    | plain vid dflt => exact ⟨(setPlain_flags ..).1, fun h => by rw [(setPlain_flags ..).2] at h; cases h⟩
+    | plain vid dflt cmp => exact ⟨(setPlain_flags ..).1, fun h => by rw [(setPlain_flags ..).2] at h; cases h⟩
     | python => exact ⟨rfl, fun h => by cases h⟩
     | defer d =>
       obtain ⟨h1, h2⟩ := setDefer_flags E k p o n d (some v)
@@ -290,7 +289,7 @@ theorem step_flags (E : Env) (k : Nat) (p : Pool) (op : Op) :
   | del o n =>
     simp only [step]
     cases htd : (p.obj o).cls.trait n with
-    | plain vid dflt => exact ⟨(delPlain_flags ..).1, fun h => by rw [(delPlain_flags ..).2] at h; cases h⟩
+    | plain vid dflt cmp => exact ⟨(delPlain_flags ..).1, fun h => by rw [(delPlain_flags ..).2] at h; cases h⟩
     | python => exact ⟨(delPython_flags ..).1, fun h => by rw [(delPython_flags ..).2] at h; cases h⟩
     | defer d =>
       obtain ⟨h1, h2⟩ := setDefer_flags E k p o n d none
